@@ -82,9 +82,9 @@ void k_unary_pred(Ctx& c)
 void t_unary_pred(Ctx& c)
 {
     k_unary_pred<KPtr>(c);
-    k_unary_pred<KCPtr>(c);
+    C06_FULL(k_unary_pred<KCPtr>(c);)
     k_unary_pred<KIn>(c);
-    k_unary_pred<KFwd>(c);
+    C06_FULL(k_unary_pred<KFwd>(c);)
 }
 
 // ---------------------------------------------------------------- find / count by value
@@ -118,9 +118,9 @@ void k_by_value(Ctx& c)
 void t_by_value(Ctx& c)
 {
     k_by_value<KPtr>(c);
-    k_by_value<KCPtr>(c);
+    C06_FULL(k_by_value<KCPtr>(c);)
     k_by_value<KIn>(c);
-    k_by_value<KFwd>(c);
+    C06_FULL(k_by_value<KFwd>(c);)
 }
 
 // ---------------------------------------------------------------- for_each / for_each_n
@@ -357,7 +357,7 @@ void t_pairs_fwd(Ctx& c) { k_pairs<KFwd, KFwd>(c); }
 void t_pairs_mixed(Ctx& c)
 {
     k_pairs<KRa, KFwd>(c);
-    k_pairs<KBidi, KRa>(c);
+    C06_FULL(k_pairs<KBidi, KRa>(c);)
 }
 
 #endif
@@ -440,7 +440,7 @@ void k_search(Ctx& c)
 void t_search_ptr(Ctx& c)
 {
     k_search<KPtr, KPtr>(c);
-    k_search<KCPtr, KCPtr>(c);
+    C06_FULL(k_search<KCPtr, KCPtr>(c);)
 }
 void t_search_fwd(Ctx& c)
 {
@@ -542,9 +542,9 @@ void k_scan(Ctx& c)
 void t_scan(Ctx& c)
 {
     k_scan<KPtr>(c);
-    k_scan<KCPtr>(c);
+    C06_FULL(k_scan<KCPtr>(c);)
     k_scan<KFwd>(c);
-    k_scan<KRa>(c);
+    C06_FULL(k_scan<KRa>(c);)
 }
 
 // ---------------------------------------------------------------- min / max / minmax / clamp on objects (result identity = which object)
@@ -714,18 +714,24 @@ Test const kTests[] = {
 #if C06_PART != 2
     {"unary_pred", t_unary_pred},
     {"by_value", t_by_value},
+#if !C06_TRUTHY
     {"for_each", t_for_each},
+#endif
     {"search_ptr", t_search_ptr},
     {"search_fwd", t_search_fwd},
     {"search_n", t_search_n},
     {"scan", t_scan},
     {"scalar", t_scalar},
+#if !C06_TRUTHY
     {"iter_helpers", t_iter_helpers},
+#endif
 #endif
 #if C06_PART != 1
     {"pairs_ptr", t_pairs_ptr},
     {"pairs_in", t_pairs_in},
+#if !C06_TRUTHY
     {"pairs_fwd", t_pairs_fwd},
+#endif
     {"pairs_mixed", t_pairs_mixed},
 #endif
 };
@@ -734,9 +740,9 @@ std::size_t const kNumTests = sizeof(kTests) / sizeof(kTests[0]);
 } // namespace c06
 
 #if C06_PART == 1
-C06_MAIN("C06_nonmod_a")
+C06_MAIN(C06_TRUTHY ? "C06_nonmod_a_truthy" : "C06_nonmod_a")
 #elif C06_PART == 2
-C06_MAIN("C06_nonmod_b")
+C06_MAIN(C06_TRUTHY ? "C06_nonmod_b_truthy" : "C06_nonmod_b")
 #else
 C06_MAIN("C06_nonmod")
 #endif
